@@ -1,7 +1,7 @@
 #!/bin/bash
 # tools/seedall.sh [pattern]  — run every seeded change under /verif/seeded (matching pattern) against the check of its property;
 # writes seeded/<id>/result.txt
-cd /verif
+cd "${VERIF_SRC:-/verif}"
 for d in seeded/${1:-*}; do
   [ -f "$d/patch.diff" ] || continue
   P=$(python3 -c "import json,sys; print(json.load(open('$d/meta.json'))['property'])" 2>/dev/null || echo ${d:7:3})
